@@ -127,6 +127,7 @@ func (c *Ctx) initFactEngine() {
 	entryFactCache = map[*ssa.Function][]Lin{}
 	phiRangeCache = map[*ssa.Phi]*constRange{}
 	fieldRangeCache = map[string]*constRange{}
+	guardSummaryCache = map[*ssa.Function][]guardFact{}
 	resultFactCache = map[resKey][]func(fi *funcInfo, a string, call *ssa.Call) Lin{}
 	prog = c.prog
 	cg = c.callgraph()
@@ -752,6 +753,13 @@ func (c *Ctx) mapNonNil(v ssa.Value, at ssa.Instruction, seen map[ssa.Value]bool
 	case *ssa.Parameter:
 		// every static call site passes a non-nil map
 		fn := x.Parent()
+		if seq := yieldedElementOf(x); seq != nil {
+			// the body of a range over slices.Backward/All/Values(X): the value is an element of X
+			if isFieldLoad(seq, c.interp().T, "DictStack") {
+				return true // covered by the stored-Dict invariant, like DictStack[i]
+			}
+			return false
+		}
 		if fn.Parent() != nil || exportedAPI(fn) {
 			return false
 		}
@@ -1897,4 +1905,50 @@ func (c *Ctx) frameGated(ia *interpAnchors, e cgEdge) (string, bool) {
 		return "the calling frame has passed the execution-depth gate (the part is entered only behind it)", true
 	}
 	return "", false
+}
+
+// yieldedElementOf: p is the element parameter of the function that go/ssa makes of the body of a
+// `for … := range slices.Backward(X)` (or slices.All, slices.Values) loop; returns X.
+func yieldedElementOf(p *ssa.Parameter) ssa.Value {
+	fn := p.Parent()
+	par := fn.Parent()
+	if par == nil {
+		return nil
+	}
+	for _, b := range par.Blocks {
+		for _, ins := range b.Instrs {
+			call, ok := ins.(*ssa.Call)
+			if !ok || len(call.Call.Args) != 1 {
+				continue
+			}
+			mc, ok := call.Call.Args[0].(*ssa.MakeClosure)
+			if !ok || mc.Fn != ssa.Value(fn) {
+				continue
+			}
+			// the iterator that is called with the body: the result of slices.Backward(X) …
+			it, ok := call.Call.Value.(*ssa.Call)
+			if !ok {
+				continue
+			}
+			sc := it.Call.StaticCallee()
+			if sc == nil || len(it.Call.Args) != 1 {
+				continue
+			}
+			if o := sc.Origin(); o != nil {
+				sc = o
+			}
+			elemIdx := -1
+			switch calleeName(sc) {
+			case "slices.Backward", "slices.All":
+				elemIdx = 1
+			case "slices.Values":
+				elemIdx = 0
+			}
+			if elemIdx < 0 || elemIdx >= len(fn.Params) || fn.Params[elemIdx] != p {
+				continue
+			}
+			return it.Call.Args[0]
+		}
+	}
+	return nil
 }
